@@ -16,6 +16,8 @@ func init() {
 			c.StateStoreDiscipline("C02", s, "prop")
 			c.RulerLocking("C02")
 			c.SignIffApproved("C02", map[string]bool{"SignBeaconProposal": true})
+			c.RulerKeyAgreement("C02")
+			c.SigningRootProvenance("C02")
 		},
 		Explanation: "Same scheme as C01 in one dimension: APPROVED for a proposal is cut by [stored slot < 0] or [slot > stored slot], the slot is bounded by MaxInt64 before it is narrowed, the new slot is committed before APPROVED leaves, the record is fetched and stored under the request's own key with the proposal action, and only APPROVED requests are signed. See DESIGN.md §5 C02.",
 		Trusted:     append([]string{"badger returns the last committed value for a key", "BLS signing"}, commonTrusted...),
